@@ -32,7 +32,10 @@ namespace cnl {
         requires(Digits < 0) struct default_scale<Digits, Radix, S> {
             [[nodiscard]] constexpr auto operator()(S const& s) const
             {
-                return s / power_value<S, -Digits, Radix>();
+                constexpr auto divisor = power_value<S, -Digits, Radix>();
+                static_assert(0 < divisor, "attempted operation will result in overflow");
+
+                return s / divisor;
             }
         };
     }
